@@ -173,20 +173,20 @@ Qed.
 
 (** * the whole header *)
 Definition bases_ok (bases : list str) : Prop := Forall arg_ok bases /\ NoDup bases.
-Theorem head_roundtrip custom alias bases forms hs cls secs rest :
+Theorem head_roundtrip custom alias bases forms hidden hs cls secs rest :
   bases_ok bases -> Forall2 form_ok forms hs -> strip cls = cls ->
-  head_read (head_toks custom alias bases forms cls secs ++ rest)
+  head_read (head_toks custom alias bases forms hidden cls secs ++ rest)
   = Some (mk_head H (match bases with [] => false | _ => alias && custom end) bases hs cls (concat secs), rest).
 Proof.
   intros [Hb Hnd] Hf Hc. unfold head_read, head_toks.
-  set (tail := (match forms with [] => [] | _ => [TNl] end
+  set (tail := (match forms with [] => if hidden then [TNl] else [] | _ => [TNl] end
                 ++ TEq :: TStr cls :: match secs with [] => [] | _ => TColon :: str_toks secs end ++ [TNl; TBrOpen]) ++ rest).
   assert (Hloop : forall al bs,
     head_loop None None al bs [] (concat (map helper_toks forms) ++ tail)
     = Some (pn (fst (G forms hs None [])), None, al, bs, snd (G forms hs None []),
             TStr cls :: match secs with [] => [] | _ => TColon :: str_toks secs end ++ [TNl; TBrOpen] ++ rest)).
   { intros al bs. change (@None str) with (pn None) at 1. rewrite (loop_forms forms hs Hf None [] al bs tail I).
-    unfold tail. destruct forms; cbn [app head_loop]; rewrite <- ?app_assoc; reflexivity. }
+    unfold tail. destruct forms; [destruct hidden|]; cbn [app head_loop]; rewrite <- ?app_assoc; reflexivity. }
   destruct (G_all forms hs Hf None []) as [EG HG]. specialize (HG I). cbn [fl app] in EG.
   assert (Hflush : head_flush (pn (fst (G forms hs None []))) None (snd (G forms hs None [])) = Some hs).
   { destruct (fst (G forms hs None [])) as [[n h]|]; cbn [pn option_map fst head_flush fl] in *.
@@ -207,7 +207,7 @@ Proof.
     end = Some (mk_head H al bs hs cls (concat secs), rest)).
   { intros al bs. rewrite Hloop, Hflush. cbn [skip_nl]. rewrite desc_written, Hc. reflexivity. }
   assert (Etoks : (match bases with [] => [] | _ => [TStr (if alias && custom then KW_ALIASOF else KW_BASE); TParen (join_cs bases)] end
-                   ++ concat (map helper_toks forms) ++ match forms with [] => [] | _ => [TNl] end
+                   ++ concat (map helper_toks forms) ++ match forms with [] => if hidden then [TNl] else [] | _ => [TNl] end
                    ++ TEq :: TStr cls :: match secs with [] => [] | _ => TColon :: str_toks secs end ++ [TNl; TBrOpen]) ++ rest
                   = match bases with [] => [] | _ => [TStr (if alias && custom then KW_ALIASOF else KW_BASE); TParen (join_cs bases)] end
                     ++ concat (map helper_toks forms) ++ tail).
